@@ -122,7 +122,8 @@ def assemble(template_path, unit, default_props):
             kv = _parse_kv(s.split(' ', 1)[1])
             maps = re.findall(r'map\s+"([^"]*)"\s*=>\s*"([^"]*)"', s)
             drops = re.findall(r'dropfield\s+(\w+)', s)
-            _emit_type(asm, out, kind, kv, maps, drops)
+            adds = re.findall(r'addfield\s+"([^"]*)"', s)
+            _emit_type(asm, out, kind, kv, maps, drops, adds)
             i += 1
             continue
         if s.startswith('//@const '):
@@ -171,7 +172,7 @@ def _code_only(txt):
     return ''.join(c if m[k] or c == '\n' else ' ' for k, c in enumerate(txt))
 
 
-def _emit_type(asm, out, kind, kv, maps, drops):
+def _emit_type(asm, out, kind, kv, maps, drops, adds=()):
     src = get_source(kv['file'])
     it = src.find(kv['name'], kind=kind)
     txt = src.text_of(it)
@@ -191,6 +192,10 @@ def _emit_type(asm, out, kind, kv, maps, drops):
         body = body.replace(a, b)
         asm.dropped.append('%s: field type %s mapped to stand-in %s' % (kv['name'], a, b))
     body = re.sub(r'pub\((crate|super)\)', 'pub', body)
+    for f in adds:
+        k = body.rstrip().rfind('}')
+        body = body[:k] + '    %s,  // ghost field added by the contract (specification state, erased)\n' % f + body[k:]
+        asm.dropped.append('%s: ghost field `%s` added' % (kv['name'], f))
     body = '\n'.join(l for l in body.split('\n') if l.strip())
     pre = kv.get('attrs', '')
     if pre:
